@@ -323,6 +323,9 @@ def gen_lifecycle(rng, out, i):
             prog += ["trigger", str(rng.randrange(2))]
         else:
             prog += ["yield", str(rng.choice([1, 10, 60, 200]))]
+        if rng.random() < 0.25:
+            # the read-only calls (shape, configuration read-back, property metadata, backlog) reach the devices too
+            prog += ["query", str(rng.randrange(2))]
         if rng.random() < 0.3:
             prog += ["yield", str(rng.choice([1, 5, 30, 120]))]
     for s, d in enumerate(streams):
